@@ -55,6 +55,24 @@ def arm(name, header, sig_params, post, loop_fn=None, rewrites=(), obligation=""
               ghost=[("@entry", "", "proof { broadcast use vstd::seq::group_seq_axioms; reveal_with_fuel(leak, 2); reveal_with_fuel(leaks, 2); }")])
 
 
+def PARAM_LOOPS(header, body):
+    if "__pi <" in header:
+        ids = "param_ids" if "param_ids" in body else None
+        inv = ("invariant __pi <= params@.len(), env.0@.len() == __pi, forall|i: int| 0 <= i < __pi ==> (#[trigger] env.0@[i]).0 == params@[i].0,\n"
+               "  forall|i: int| 0 <= i < __pi ==> hir_table.issued().contains((#[trigger] env.0@[i]).1),\n"
+               "  forall|i: int, j: int| 0 <= i < j < __pi ==> (#[trigger] env.0@[i]).1 != (#[trigger] env.0@[j]).1,\n")
+        if ids:
+            inv += f"  {ids}@.len() == __pi, forall|i: int| 0 <= i < __pi ==> #[trigger] {ids}@[i] == env.0@[i].1,\n"
+        return inv + "decreases params@.len() - __pi,"
+    if "__zi <" in header:
+        return ("invariant __zi <= params@.len(), new_params@.len() == __zi, forall|i: int| 0 <= i < __zi ==> (#[trigger] new_params@[i]).0 == env.0@[i].1,\n"
+                "decreases params@.len() - __zi,")
+    if "__mi0 <" in header:
+        return ("invariant __mi0 <= params@.len(), __mo0@.len() == __mi0, env.0@.len() == params@.len(), forall|i: int| 0 <= i < params@.len() ==> (#[trigger] env.0@[i]).0 == params@[i].0,\n"
+                "decreases params@.len() - __mi0,")
+    return None
+
+
 UNIT = Unit(
     name="U-SCOPE",
     properties=["C05"],
@@ -155,5 +173,24 @@ UNIT = Unit(
             "env_names(final(env).0@) == env_names(old(env).0@) + leaks(items@, items@.len() as int)", seq_loop("leaks")),
         arm("resolve_go", "ast::Expr::EGo { expr, astptr } => {", "expr: &Box<ast::Expr>, astptr: &ast::MySyntaxNodePtr",
             "env_names(final(env).0@) == env_names(old(env).0@) + leak(**expr)"),
+        Fn(file=N, name="resolve_fn", container=NR, as_method_of=NR, rename="resolve_fn_params", ret="r", attrs="#[verifier::loop_isolation(false)]",
+           rules=["attrs", "fmtmsg", "iter_map_collect"],
+           cut_from="let mut env = ResolveLocalEnv::new();", cut_before="let new_generic_bounds", cut_tail="    (env, new_params)",
+           sig="pub fn resolve_fn_params(&mut self, params: &Vec<(ast::AstIdent, ast::TypeExpr)>, generics: &Vec<ast::AstIdent>, ctx: &ResolutionContext, hir_table: &mut HirTable) -> (ResolveLocalEnv, Vec<(hir::LocalId, hir::TypeExpr)>)",
+           pre_rewrites=[
+               ("for param in params {", "let mut __pi: usize = 0; while __pi < params.len() { let param = &params[__pi]; __pi += 1;"),
+               # `params.iter().zip(ids).map(|(param, local_id)| E).collect()`: pairwise, in order (std)
+               (re.compile(r"let new_params = params\s*\.iter\(\)\s*\.zip\((\w+)\)\s*\.map\(\|\(param, local_id\)\| \{(.*?)\n            \}\)\s*\.collect\(\);", re.S),
+                r"let mut new_params: Vec<(hir::LocalId, hir::TypeExpr)> = Vec::new(); let mut __zi: usize = 0; while __zi < params.len() && __zi < \1.len() { let param = &params[__zi]; let local_id = \1[__zi]; __zi += 1; let __e = {\2\n            }; new_params.push(__e); }", "*"),
+               # the shape before fix (ids looked up again by NAME): `.map(|param| { let local_id = env.rfind(..).unwrap_or_else(..); (..) })`
+               (re.compile(r"let local_id = env\.rfind\(&param\.0\)\.unwrap_or_else\(\|\| \{.*?\}\);", re.S),
+                "let local_id = match env.rfind(&param.0) { Some(__id) => __id, None => { self.ice(rt_msg()); self.fresh_name(string_as_str(&param.0.0), hir_table) } };", "*"),
+           ],
+           rewrites=[(re.compile(r"let mut (\w+) = Vec::with_capacity\(params\.len\(\)\);"), r"let mut \1: Vec<hir::LocalId> = Vec::new();", "*"),
+                     (re.compile(r"self\.fresh_name\(&param\.0\.0, hir_table\)"), "self.fresh_name(string_as_str(&param.0.0), hir_table)", "*"),
+                     (re.compile(r"let new_params = \{ let mut __mo0 = Vec::new\(\);"), "let new_params = { let mut __mo0: Vec<(hir::LocalId, hir::TypeExpr)> = Vec::new();", "*")],
+           obligation="every parameter gets a binder of its own (a fresh id, also when two parameters share a name) and is entered into the environment in order",
+           contract="ensures params_bound(params@, r.0.0@, r.1@),",
+           loop_fn=lambda k, header, kw, body: PARAM_LOOPS(header, body)),
     ],
 )
